@@ -379,6 +379,15 @@ func init() {
 		"github.com/tinylib/msgp/msgp.UnsafeString": func(fr *frame, args []value) value {
 			return fr.i.mkStr(args[0].([]value))
 		},
+		// go4.org/mem.B: zero-copy []byte -> RO{m: unsafeString} through a string header cast
+		"internal/stringslite.Clone": func(fr *frame, args []value) value { return args[0] },
+		"strings.Clone":              func(fr *frame, args []value) value { return args[0] },
+		"go4.org/mem.B": func(fr *frame, args []value) value {
+			b, _ := args[0].([]value)
+			r := zero(fr.fn.Signature.Results().At(0).Type()).(structure) // RO{_ [0]func(); m unsafeString}
+			r[len(r)-1] = fr.i.mkStr(b)
+			return r
+		},
 		"github.com/mailru/easyjson/jlexer.bytesToStr": func(fr *frame, args []value) value {
 			return fr.i.mkStr(args[0].([]value))
 		},
